@@ -958,7 +958,12 @@ def equatorial2ecliptical(right_ascension, declination, obliquity):
     dec = declination.rad()
     eps = obliquity.rad()
     lon = atan2((sin(ra) * cos(eps) + tan(dec) * sin(eps)), cos(ra))
-    lat = asin(sin(dec) * cos(eps) - cos(dec) * sin(eps) * sin(ra))
+    # The latitude comes from atan2(): asin() loses accuracy near the poles and
+    # raises ValueError when rounding pushes its argument beyond +/-1
+    x = cos(dec) * cos(ra)
+    y = cos(dec) * sin(ra) * cos(eps) + sin(dec) * sin(eps)
+    z = sin(dec) * cos(eps) - cos(dec) * sin(eps) * sin(ra)
+    lat = atan2(z, sqrt(x * x + y * y))
     lon = Angle(lon, radians=True)
     lon = lon.to_positive()
     lat = Angle(lat, radians=True)
@@ -1002,7 +1007,12 @@ def ecliptical2equatorial(longitude, latitude, obliquity):
     lat = latitude.rad()
     eps = obliquity.rad()
     ra = atan2((sin(lon) * cos(eps) - tan(lat) * sin(eps)), cos(lon))
-    dec = asin(sin(lat) * cos(eps) + cos(lat) * sin(eps) * sin(lon))
+    # The declination comes from atan2(): asin() loses accuracy near the poles
+    # and raises ValueError when rounding pushes its argument beyond +/-1
+    x = cos(lat) * cos(lon)
+    y = cos(lat) * sin(lon) * cos(eps) - sin(lat) * sin(eps)
+    z = sin(lat) * cos(eps) + cos(lat) * sin(eps) * sin(lon)
+    dec = atan2(z, sqrt(x * x + y * y))
     ra = Angle(ra, radians=True)
     ra = ra.to_positive()
     dec = Angle(dec, radians=True)
@@ -1065,7 +1075,12 @@ def equatorial2horizontal(hour_angle, declination, geo_latitude):
     dec = declination.rad()
     lat = geo_latitude.rad()
     azi = atan2(sin(h), (cos(h) * sin(lat) - tan(dec) * cos(lat)))
-    ele = asin(sin(lat) * sin(dec) + cos(lat) * cos(dec) * cos(h))
+    # The elevation comes from atan2(): asin() loses accuracy near the zenith
+    # and raises ValueError when rounding pushes its argument beyond +/-1
+    x = cos(dec) * cos(h) * sin(lat) - sin(dec) * cos(lat)
+    y = cos(dec) * sin(h)
+    z = sin(lat) * sin(dec) + cos(lat) * cos(dec) * cos(h)
+    ele = atan2(z, sqrt(x * x + y * y))
     azi = Angle(azi, radians=True)
     ele = Angle(ele, radians=True)
     return (azi, ele)
@@ -1121,7 +1136,12 @@ def horizontal2equatorial(azimuth, elevation, geo_latitude):
     ele = elevation.rad()
     lat = geo_latitude.rad()
     h = atan2(sin(azi), (cos(azi) * sin(lat) + tan(ele) * cos(lat)))
-    dec = asin(sin(lat) * sin(ele) - cos(lat) * cos(ele) * cos(azi))
+    # The declination comes from atan2(): asin() loses accuracy near the poles
+    # and raises ValueError when rounding pushes its argument beyond +/-1
+    x = cos(ele) * cos(azi) * sin(lat) + sin(ele) * cos(lat)
+    y = cos(ele) * sin(azi)
+    z = sin(lat) * sin(ele) - cos(lat) * cos(ele) * cos(azi)
+    dec = atan2(z, sqrt(x * x + y * y))
     h = Angle(h, radians=True)
     dec = Angle(dec, radians=True)
     return (h, dec)
@@ -1169,7 +1189,12 @@ def equatorial2galactic(right_ascension, declination):
     lon = Angle(-x, radians=True)
     lon = 303.0 + lon
     lon = lon.to_positive()
-    lat = asin(sin(dec) * sin(c2) + cos(dec) * cos(c2) * cos(c1ra))
+    # The latitude comes from atan2(): asin() loses accuracy near the poles and
+    # raises ValueError when rounding pushes its argument beyond +/-1
+    xg = cos(dec) * cos(c1ra) * sin(c2) - sin(dec) * cos(c2)
+    yg = cos(dec) * sin(c1ra)
+    zg = sin(dec) * sin(c2) + cos(dec) * cos(c2) * cos(c1ra)
+    lat = atan2(zg, sqrt(xg * xg + yg * yg))
     lat = Angle(lat, radians=True)
     return (lon, lat)
 
@@ -1215,7 +1240,12 @@ def galactic2equatorial(longitude, latitude):
     y = Angle(y, radians=True)
     ra = y + 12.25
     ra.to_positive()
-    dec = asin(sin(lat) * sin(c2) + cos(lat) * cos(c2) * cos(lc1))
+    # The declination comes from atan2(): asin() loses accuracy near the poles
+    # and raises ValueError when rounding pushes its argument beyond +/-1
+    xe = cos(lat) * cos(lc1) * sin(c2) - sin(lat) * cos(c2)
+    ye = cos(lat) * sin(lc1)
+    ze = sin(lat) * sin(c2) + cos(lat) * cos(c2) * cos(lc1)
+    dec = atan2(ze, sqrt(xe * xe + ye * ye))
     dec = Angle(dec, radians=True)
     return (ra, dec)
 
